@@ -19,8 +19,9 @@ pub fn optsets() -> Vec<Options> {
          Options::new().with_nil_symbol(NilSymbol::Special).with_t_symbol(TSymbol::True).with_keyword_syntax(KeywordSyntax::ColonPrefix)]
 }
 
-fn cases(_ob: &str) -> Vec<String> {
+fn cases(ob: &str) -> Vec<String> {
     let mut out = vec![];
+    if let Some(seed) = crate::gen::thorough_seed(ob) { for t in crate::gen::texts(seed ^ 10, 300, true) { for oi in [0usize, 2] { out.push(format!("apix:{}:{}", crate::hex(t.as_bytes()), oi)); out.push(format!("walkx:{}:{}", crate::hex(t.as_bytes()), oi)); } } }
     for ci in 0..corpus().len() { for oi in 0..optsets().len() { out.push(format!("api:{}:{}", ci, oi)); out.push(format!("walk:{}:{}", ci, oi)); } }
     for i in 0..deep_texts().len() { out.push(format!("deep:{}", i)); }
     out
@@ -90,10 +91,11 @@ fn check(case: &str) -> Option<String> {
         for mode in 1..5 { let d = drain(Parser::from_str(&text), mode); if d != v { return Some(format!("{} quote/list levels: next_value loop ends with {:?}, iteration style {} with {:?}", text.len(), v.1, mode, d.1)); } }
         return None;
     }
-    let text = *corpus().get(p.get(1)?.parse::<usize>().ok()?)?;
+    let owned: String;
+    let text: &str = if p[0].ends_with('x') { owned = String::from_utf8(crate::unhex(p.get(1)?)).ok()?; &owned } else { *corpus().get(p.get(1)?.parse::<usize>().ok()?)? };
     let o = optsets().get(p.get(2)?.parse::<usize>().ok()?)?.clone();
     match p[0] {
-        "api" => {
+        "api" | "apix" => {
             for src in 0..3 {
                 let base = match src {
                     0 => drain(Parser::from_str_custom(text, o.clone()), 0),
@@ -114,7 +116,7 @@ fn check(case: &str) -> Option<String> {
             }
             None
         }
-        "walk" => {
+        "walk" | "walkx" => {
             let mut parser = Parser::from_str_custom(text, o);
             while let Ok(Some(d)) = parser.next_datum() {
                 let v = d.value().clone();
